@@ -197,6 +197,15 @@ def mux_startup_transient(spec):
     return False
 
 
+def tiny_current_matters(spec, ref):
+    for n in spec["nodes"]:
+        if n["kind"] in S.PASSIVE:
+            vin, vout, _ii, io = ref[n["name"]]
+            if 0.0 < abs(io) < 1e-3 and abs(abs(vin) - abs(vout)) > 1e-4 * abs(vin):
+                return True
+    return False
+
+
 def body_finds(spec, stats, avoid=()):
     if "F17" in avoid and mux_startup_transient(spec):
         stats.excluded["F17_mux_startup_transient"] += 1
@@ -210,6 +219,12 @@ def body_finds(spec, stats, avoid=()):
         ref = None
     if ref is None or not modest(spec, ref):
         stats.cls("reference:no_modest_state")
+        return
+    if "F18" in avoid and tiny_current_matters(spec, ref):
+        # known finding F18 (absolute tolerance 1e-8 A of the convergence test): a series
+        # element whose whole current is below 1 mA but whose drop is significant (only
+        # possible with resistances of kilo- to mega-ohms) is solved with a visible error
+        stats.excluded["F18_series_drop_from_sub_mA_current"] += 1
         return
     stats.cls("reference:modest_state")
     sys = B.build(spec)
@@ -404,4 +419,20 @@ def _probe_f17():
     return None
 
 
-PROBES = {"F1": _probe_f1, "F8": _probe_f8, "F17": _probe_f17}
+def _probe_f18():
+    from vlib.runner import Stats
+    spec = _spec2([("V", "Source", [], {"vo": 10.0, "rs": 488281.25}),
+                   ("T", "RLoss", ["V"], {"rs": 0.0}),
+                   ("Buck", "Converter", ["T"], {"vo": 1.2, "eff": 1.0}),
+                   ("MCU", "PLoad", ["Buck"], {"pwr": 1.2e-05})])
+    try:
+        body_finds(spec, Stats())
+    except Fail as f:
+        if f.sig.startswith("finds.differs."):
+            return ("10 V source with 488 kOhm feeding 1.28 uA: steady state 9.375 V, solve() "
+                    "returns 9.3776 V (currents are only resolved to 1e-8 A absolute)")
+        raise
+    return None
+
+
+PROBES = {"F1": _probe_f1, "F8": _probe_f8, "F17": _probe_f17, "F18": _probe_f18}
